@@ -66,13 +66,25 @@ def end_lists(tier):
     return out
 
 
+def eof_end_lists():
+    """(end positions, text length): the last end is the text length itself (a scalar that runs to
+    the end of a text without trailing newline), with text lengths at and around multiples of 64."""
+    out = []
+    for tl in (63, 64, 65, 127, 128, 129, 192, 256, 320):
+        out.append(([0, 3, 0, tl // 2, 0, tl], tl))
+        out.append(([tl], tl))
+        out.append(([0 if i % 3 == 0 else min(tl, 1 + i * 5) for i in range(tl // 5 + 4)] + [tl], tl))
+    return out
+
+
 def orders(n, tier):
     idx = list(range(n + 2))
     alt = []
     for i in range((n + 2 + 1) // 2):
         alt += [idx[i], idx[-1 - i]]
     skip = idx[::3] + idx[1::7]
-    return [("ascending", idx), ("descending", idx[::-1]), ("alternating", alt[: n + 2]), ("skipping", skip)]
+    rep = [i for i in idx for _ in (0, 1)]
+    return [("ascending", idx), ("descending", idx[::-1]), ("alternating", alt[: n + 2]), ("skipping", skip), ("repeating", rep)]
 
 
 def rule_positions(progs, tier, name="POSTAB"):
@@ -153,11 +165,12 @@ def rule_positions(progs, tier, name="POSTAB"):
                                 break
                             if tier != "thorough" and start and steps > 70:
                                 break
-            for vals in end_lists(tier):
+            for item in [(v, None) for v in end_lists(tier)] + eof_end_lists():
+                vals, fixed_len = item
                 flip ^= 1
                 I.statics.clear()
                 n = len(vals)
-                text_len = (max(vals) + 1 + flip * 21) if vals else flip * 10
+                text_len = fixed_len if fixed_len is not None else ((max(vals) + 1 + flip * 21) if vals else flip * 10)
                 desc = "%d end positions %s%s, text length %d" % (n, vals[:10], "..." if n > 10 else "", text_len)
                 ep = I.call(EP + "build", [Slice(list(vals), 0, n, 4), text_len])
                 r = tmp_ref(ep)
